@@ -303,15 +303,17 @@ REGISTRY = {
                   ("PsProps.C01", "Ps.Props.C01_crossoff_step"), ("PsProps.C01", "Ps.Props.C01_crossoff_walk_exact"),
                   ("PsProps.C01", "Ps.Props.C01_first_multiple"), ("PsProps.C01", "Ps.Props.C01_presieve_exact"),
                   ("PsProps.C01", "Ps.Props.C01_wheel_source"), ("PsProps.C01", "Ps.Props.C01_sieve_principle"),
-                  ("PsProps.C01", "Ps.Props.C01_crossoff_covers_segment"), ("PsProps.C01", "Ps.Props.C01_segments_tile"),
+                  ("PsProps.C01", "Ps.Props.C01_crossoff_covers_segment"), ("PsProps.C01", "Ps.Props.C01_segments_tile"), ("PsProps.C01", "Ps.Props.C01_segment_numbers_correct"),
                   ("PsProps.C01", "Ps.Props.C01_segment_source")],
         tie=combine(("iter", iter_tie), ("segment", segment_tie), ("wheel", streams.WHEEL.tie), ("cross", streams.CROSS.tie),
                     ("presieve", streams.PRESIEVE.tie)),
         witness=combine_witness(iter_witness, streams.WHEEL.witness, streams.CROSS.witness, streams.PRESIEVE.witness, segment_witness), assumptions=ITER_ASSUME,
         undischarged=["IGen ~ PrimeGenerator: the wheel layer (tables, step, walk, first multiple) and the pre-sieve (16 tables, AND) of the "
-                      "sieve chain, the sieve principle and the tiling of [start, stop] by segments are proved; bucket scheduling "
-                      "(which segment a sieving prime is processed in), L1 sub-segments, MemoryPool and sieving-prime generation "
-                      "(SievingPrimes / tinySieve) are tied by the segment and cross streams only"],
+                      "sieve chain, the sieve principle, their composition (a number of a segment is prime iff pre-sieved bit set and "
+                      "not crossed off by a stored sieving prime's walk) and the tiling of [start, stop] by segments are proved; what "
+                      "remains is scheduling: that EratSmall (L1 sub-segments) / EratMedium (bucket lists) / EratBig (segment rotation, "
+                      "MemoryPool) perform exactly these walks in every segment and that SievingPrimes / tinySieve hand every prime "
+                      "<= sqrt(segmentHigh) to addSievingPrime in time - tied by the segment and cross streams only"],
         explanation="forward iteration = primeSeq for every start, hint, block policy and float oracle; "
                     "termination of generate_next_primes is the well-founded recursion of genNextFresh"),
     "C02": Prop(
